@@ -4,9 +4,11 @@
 -- expect: 3
 -- expect: 2
 -- expect: 1
--- expect: 1
+-- expect[jit]: 1
+-- expect[5.3]: 1.0
 -- expect: 1.5
--- expect: 2
+-- expect[jit]: 2
+-- expect[5.3]: 2.0
 -- expect: 1	10
 -- expect: 2	10
 -- expect: 3	10
@@ -19,8 +21,10 @@
 -- expect: 10
 -- expect: 6
 -- expect: 2
--- expect: 1
--- expect: 2
+-- expect[jit]: 1
+-- expect[5.3]: 1.0
+-- expect[jit]: 2
+-- expect[5.3]: 2.0
 -- expect: 1
 -- expect: 2
 -- expect: outer
